@@ -800,7 +800,7 @@ def _apply_op(ch, case, op, rec, patched, held):
             ch.generate_impulse_response(n)
         return ('ok',)
     sig = make_signal(case, op)
-    if op.get('alias') == 'sources-share-array' and mu and len(sig):
+    if op.get('alias') == 'sources-share-array' and mu and len(sig) and (isinstance(sig, list) or sig.ndim >= 2):
         sig = [sig[0] for _ in range(len(sig))]           # ONE array object as the signal of every source
     if op.get('buf'):
         sig = rec.reuse('sig', sig)
@@ -1240,7 +1240,7 @@ def count_refills(case):
                 rec.reuse('pl', make_plmatrix(op))
             if k in ('tx', 'fx'):
                 sig = make_signal(case, op)
-                if op.get('alias') == 'sources-share-array' and mu and len(sig):
+                if op.get('alias') == 'sources-share-array' and mu and len(sig) and (isinstance(sig, list) or sig.ndim >= 2):
                     sig = [sig[0] for _ in range(len(sig))]
                 if op.get('buf'):
                     rec.reuse('sig', sig)
@@ -1326,6 +1326,12 @@ def correspondence(ctx, n_su, n_mu, quick):
     for i in range(n_mu):
         cases.append(gen_case(ctx.rng, 'mu', quick))
     cases += corpus_cases()
+    # R15 / R16: close-but-distinct values; argument buffers refilled in place, overwritten, in two roles
+    from harness.props import c03_r1516 as rx
+    cases += rx.fixed_cases()
+    for i in range((n_su + n_mu) // 8):
+        level = ('tdl', 'su', 'mu', 'su', 'mu')[i % 5]
+        cases.append(rx.gen_close_case(ctx.rng, level, quick) if i % 2 else rx.gen_reuse_case(ctx.rng, level, quick))
     replies = drv.ask([case_line(c) for c in cases])
     disagreeing = []
     for c, rep in zip(cases, replies):
@@ -2387,7 +2393,8 @@ def oracles(ctx, n_tx, n_lin, n_disc):
         ctx.branch('oracle:R5:pl0' if case['level'] == 'su' else 'oracle:R5:pl-matrix-zero')
     # the boundary / rejected-call / long-lived-object corpus of the correspondence, on the untouched generators
     wr = core.Rng(51, 'c03corpus-real')
-    for c in corpus_cases():
+    from harness.props import c03_r1516 as rx
+    for c in corpus_cases() + rx.fixed_cases():
         rc = real_twin_of(wr, c)
         run_oracle(ctx, 'transmit', rc)
         for ft in case_features(rc):
@@ -2403,7 +2410,10 @@ def oracles(ctx, n_tx, n_lin, n_disc):
             run_oracle(ctx, 'transmit', gen_oracle_case(ctx.rng, level))
         else:
             # the full robustness history generator (R1-R7) on the untouched generators / FFT / dB profile
-            rc = real_twin_of(ctx.rng, gen_case(ctx.rng, level, True))
+            kind = (i // 2) % 4
+            rc = real_twin_of(ctx.rng, gen_case(ctx.rng, level, True) if kind < 2 else
+                              (rx.gen_reuse_case(ctx.rng, level, True) if kind == 2 else
+                               rx.gen_close_case(ctx.rng, level, True)))
             run_oracle(ctx, 'transmit', rc, key=case_line(rc) + str(rc['npseed']))
             for ft in case_features(rc):
                 if ft.startswith('R'):
